@@ -234,15 +234,16 @@ theorem altVal_ambig {sem : Nat → V} {alt : List Nat}
 /-! ## Part B: `solveGoal` on ranked instances -/
 
 /-- postcondition of a call: `okP` on a returned value, `panicP` on the state a panic leaves -/
-def Res.sat {α : Type} (r : Res α) (okP : α → St → Prop) (panicP : St → Prop) : Prop :=
+def Res.sat {α : Type} (r : Res α) (okP : α → St → Prop) (panicP : Site → St → Prop) : Prop :=
   match r with
   | .ok a s => okP a s
-  | .panic _ s => panicP s
+  | .panic site s => panicP site s
 
-@[simp] theorem Res.sat_ok {α : Type} (a : α) (s : St) (okP : α → St → Prop) (panicP : St → Prop) :
+@[simp] theorem Res.sat_ok {α : Type} (a : α) (s : St) (okP : α → St → Prop) (panicP : Site → St → Prop) :
     (Res.ok a s).sat okP panicP = okP a s := rfl
-@[simp] theorem Res.sat_panic {α : Type} (site : Site) (s : St) (okP : α → St → Prop) (panicP : St → Prop) :
-    (Res.panic (α := α) site s).sat okP panicP = panicP s := rfl
+@[simp] theorem Res.sat_panic {α : Type} (site : Site) (s : St) (okP : α → St → Prop)
+    (panicP : Site → St → Prop) :
+    (Res.panic (α := α) site s).sat okP panicP = panicP site s := rfl
 
 /-- every cache entry is the semantic value of its goal -/
 def CacheSound (sem : Nat → V) (s : St) : Prop :=
@@ -251,6 +252,32 @@ def CacheSound (sem : Nat → V) (s : St) : Prop :=
 theorem CacheSound.of_eq {sem : Nat → V} {s s' : St} (h : CacheSound sem s) (e : s'.cache = s.cache) :
     CacheSound sem s' := by
   intro c hc; rw [e] at hc; exact h c hc
+
+/-- the goal `c` can be solved at stack depth `L` with depth fuel `D`: its rank (the length of the
+    longest dependency chain below it) fits under the overflow depth -/
+def Fits (rank : Nat → Nat) (cfg : Cfg) (D L c : Nat) : Prop :=
+  rank c < D ∧ L + rank c < cfg.overflowDepth
+
+/-- what a panic may be on a ranked instance: the cache stays sound, and the panic is one of
+    the resource panics — the hook's budget (only if one is set), the round fuel (only if it is 0),
+    the legacy `unwrap` (only without the F16 repair), overflow / depth fuel (only if the goal does
+    not fit).  None of the asserts of the framework fires. -/
+def PanicOK (sem : Nat → V) (cfg : Cfg) (fits : Prop) (site : Site) (s' : St) : Prop :=
+  CacheSound sem s' ∧
+  match site with
+  | .budget => cfg.budget ≠ none
+  | .fuelRounds => cfg.rounds = 0
+  | .unwrapNoSolution => cfg.fixF16 = false
+  | .overflow => ¬ fits
+  | .fuelDepth => ¬ fits
+  | _ => False
+
+theorem PanicOK.mono {sem : Nat → V} {cfg : Cfg} {fits fits' : Prop} {site : Site} {s' : St}
+    (h : PanicOK sem cfg fits site s') (hf : fits' → fits) : PanicOK sem cfg fits' site s' := by
+  refine ⟨h.1, ?_⟩
+  have h2 := h.2
+  cases site <;> simp_all
+  all_goals exact fun x => h2 (hf x)
 
 /-- the shape of the context between two sub-goal calls on a ranked instance: the search graph
     holds exactly the goals on the stack, no cycle flag is set, the cache is sound -/
@@ -308,16 +335,16 @@ theorem Post.inv {sem : Nat → V} {s s' : St} (h : Post sem s s') (hi : Inv sem
   ⟨by rw [h.stack, h.graph]; exact hi.len, by rw [h.stack]; exact hi.flags, h.cache⟩
 
 /-- specification of a sub-goal solver on a ranked instance -/
-def RecSpec (sem : Nat → V) (rank : Nat → Nat) (rec : SubSolver) : Prop :=
+def RecSpec (sem : Nat → V) (rank : Nat → Nat) (cfg : Cfg) (D : Nat) (rec : SubSolver) : Prop :=
   ∀ c m s, Inv sem s → (∀ n, n ∈ s.graph → rank c < rank n.goal) →
     (rec c m s).sat
       (fun r s' => Post sem s s' ∧ r.2 = m ∧ Approx s'.interrupted r.1 (sem c))
-      (CacheSound sem)
+      (PanicOK sem cfg (Fits rank cfg D s.stack.length c))
 
 section Spec
-variable {inst : Instance} {cfg : Cfg} {sem : Nat → V} {rank : Nat → Nat} {rec : SubSolver}
+variable {inst : Instance} {cfg : Cfg} {sem : Nat → V} {rank : Nat → Nat} {rec : SubSolver} {D : Nat}
 
-theorem fulfillRound_spec (hrec : RecSpec sem rank rec) :
+theorem fulfillRound_spec (hrec : RecSpec sem rank cfg D rec) :
     ∀ (cs acc : List Nat) (m : Min) (s : St), Inv sem s →
       (∀ c, c ∈ cs → ∀ n, n ∈ s.graph → rank c < rank n.goal) →
       (fulfillRound rec cs acc m s).sat
@@ -328,7 +355,7 @@ theorem fulfillRound_spec (hrec : RecSpec sem rank rec) :
             (∀ c, c ∈ cs → sem c = .unique ∨ (c ∈ ret ∧ Approx s'.interrupted .ambig (sem c))) ∧
             (∀ c, c ∈ ret → c ∈ acc ∨ (c ∈ cs ∧ Approx s'.interrupted .ambig (sem c))) ∧
             (∀ c, c ∈ acc → c ∈ ret))
-        (CacheSound sem)
+        (PanicOK sem cfg (∀ c, c ∈ cs → Fits rank cfg D s.stack.length c))
   | [], acc, m, s, hi, _ => by
     simp only [fulfillRound, Res.sat_ok]
     refine ⟨Post.refl hi.cache, ?_⟩
@@ -337,7 +364,10 @@ theorem fulfillRound_spec (hrec : RecSpec sem rank rec) :
     have h1 := hrec c m s hi (hrk c (List.mem_cons_self ..))
     simp only [fulfillRound]
     cases hr : rec c m s with
-    | panic site s' => rw [hr] at h1; simpa using h1
+    | panic site s' =>
+      rw [hr] at h1
+      simp only [Res.sat_panic] at h1 ⊢
+      exact h1.mono (fun hf => hf c (List.mem_cons_self ..))
     | ok r s1 =>
       rw [hr] at h1
       obtain ⟨v, m'⟩ := r
@@ -362,7 +392,10 @@ theorem fulfillRound_spec (hrec : RecSpec sem rank rec) :
         have ih := fulfillRound_spec hrec rest acc m' s1 hi1 hrk1
         simp only []
         cases hr2 : fulfillRound rec rest acc m' s1 with
-        | panic site s' => rw [hr2] at ih; simpa using ih
+        | panic site s' =>
+          rw [hr2] at ih
+          simp only [Res.sat_panic] at ih ⊢
+          exact ih.mono (fun hf c' hc' => by rw [hp.stack]; exact hf c' (List.mem_cons_of_mem _ hc'))
         | ok r2 s2 =>
           rw [hr2] at ih
           obtain ⟨o, m2⟩ := r2
@@ -388,7 +421,10 @@ theorem fulfillRound_spec (hrec : RecSpec sem rank rec) :
         have ih := fulfillRound_spec hrec rest (acc ++ [c]) m' s1 hi1 hrk1
         simp only []
         cases hr2 : fulfillRound rec rest (acc ++ [c]) m' s1 with
-        | panic site s' => rw [hr2] at ih; simpa using ih
+        | panic site s' =>
+          rw [hr2] at ih
+          simp only [Res.sat_panic] at ih ⊢
+          exact ih.mono (fun hf c' hc' => by rw [hp.stack]; exact hf c' (List.mem_cons_of_mem _ hc'))
         | ok r2 s2 =>
           rw [hr2] at ih
           obtain ⟨o, m2⟩ := r2
@@ -423,13 +459,13 @@ theorem fulfillRound_spec (hrec : RecSpec sem rank rec) :
             · intro c' hc'
               exact h3 c' (List.mem_append_left _ hc')
 
-theorem suggestPass_spec (hrec : RecSpec sem rank rec) :
+theorem suggestPass_spec (hrec : RecSpec sem rank cfg D rec) :
     ∀ (ds : List Nat) (m : Min) (s : St), Inv sem s →
       (∀ c, c ∈ ds → ∀ n, n ∈ s.graph → rank c < rank n.goal) →
       (suggestPass cfg rec ds m s).sat
         (fun r s' => Post sem s s' ∧ r.2 = m ∧ r.1 ≠ .unique ∧
           (r.1 = .noSolution → ∃ d, d ∈ ds ∧ sem d = .noSolution))
-        (CacheSound sem)
+        (PanicOK sem cfg (∀ c, c ∈ ds → Fits rank cfg D s.stack.length c))
   | [], m, s, hi, _ => by
     simp only [suggestPass, Res.sat_ok]
     refine ⟨Post.refl hi.cache, ?_⟩
@@ -438,7 +474,10 @@ theorem suggestPass_spec (hrec : RecSpec sem rank rec) :
     have h1 := hrec c m s hi (hrk c (List.mem_cons_self ..))
     simp only [suggestPass]
     cases hr : rec c m s with
-    | panic site s' => rw [hr] at h1; simpa using h1
+    | panic site s' =>
+      rw [hr] at h1
+      simp only [Res.sat_panic] at h1 ⊢
+      exact h1.mono (fun hf => hf c (List.mem_cons_self ..))
     | ok r s1 =>
       rw [hr] at h1
       obtain ⟨v, m'⟩ := r
@@ -458,7 +497,10 @@ theorem suggestPass_spec (hrec : RecSpec sem rank rec) :
           | inl e => exact e.symm
           | inr e => cases e.2
         · simp only [hf, Res.sat_panic]
-          exact hp.cache
+          refine ⟨hp.cache, ?_⟩
+          cases h16 : cfg.fixF16 with
+          | false => rfl
+          | true => exact absurd h16 hf
       | unique =>
         simp only [Res.sat_ok]
         exact ⟨hp, trivial, by decide, fun e => by cases e⟩
@@ -466,7 +508,10 @@ theorem suggestPass_spec (hrec : RecSpec sem rank rec) :
         have ih := suggestPass_spec hrec rest m' s1 hi1 hrk1
         simp only []
         cases hr2 : suggestPass cfg rec rest m' s1 with
-        | panic site s' => rw [hr2] at ih; simpa using ih
+        | panic site s' =>
+          rw [hr2] at ih
+          simp only [Res.sat_panic] at ih ⊢
+          exact ih.mono (fun hf c' hc' => by rw [hp.stack]; exact hf c' (List.mem_cons_of_mem _ hc'))
         | ok r2 s2 =>
           rw [hr2] at ih
           obtain ⟨v2, m2⟩ := r2
@@ -476,17 +521,20 @@ theorem suggestPass_spec (hrec : RecSpec sem rank rec) :
           obtain ⟨d, hd, hs⟩ := hno e
           exact ⟨d, List.mem_cons_of_mem _ hd, hs⟩
 
-theorem fulfillSolve_spec (hrec : RecSpec sem rank rec) (alt : List Nat) (m : Min) (s : St)
+theorem fulfillSolve_spec (hrec : RecSpec sem rank cfg D rec) (alt : List Nat) (m : Min) (s : St)
     (hi : Inv sem s) (hrk : ∀ c, c ∈ alt → ∀ n, n ∈ s.graph → rank c < rank n.goal) :
     (fulfillSolve cfg rec alt m s).sat
       (fun r s' => Post sem s s' ∧ r.2 = m ∧ Approx s'.interrupted r.1 (altVal (alt.map sem)))
-      (CacheSound sem) := by
+      (PanicOK sem cfg (∀ c, c ∈ alt → Fits rank cfg D s.stack.length c)) := by
   have hrk' : ∀ c, c ∈ alt.reverse → ∀ n, n ∈ s.graph → rank c < rank n.goal :=
     fun c hc => hrk c (List.mem_reverse.mp hc)
   have h1 := fulfillRound_spec hrec alt.reverse [] m s hi hrk'
   unfold fulfillSolve
   cases hr : fulfillRound rec alt.reverse [] m s with
-  | panic site s' => rw [hr] at h1; simpa using h1
+  | panic site s' =>
+    rw [hr] at h1
+    simp only [Res.sat_panic] at h1 ⊢
+    exact h1.mono (fun hf c hc => hf c (List.mem_reverse.mp hc))
   | ok r s1 =>
     rw [hr] at h1
     obtain ⟨o, m'⟩ := r
@@ -525,7 +573,10 @@ theorem fulfillSolve_spec (hrec : RecSpec sem rank rec) (alt : List Nat) (m : Mi
           intro c hc n hn; rw [hp.graph] at hn; exact hrk c (hsub c hc) n hn
         have h3 := suggestPass_spec (cfg := cfg) hrec (r0 :: rs).reverse m' s1 hi1 hrk1
         cases hr2 : suggestPass cfg rec (r0 :: rs).reverse m' s1 with
-        | panic site s' => rw [hr2] at h3; simpa using h3
+        | panic site s' =>
+          rw [hr2] at h3
+          simp only [Res.sat_panic] at h3 ⊢
+          exact h3.mono (fun hf c hc => by rw [hp.stack]; exact hf c (hsub c hc))
         | ok r2 s2 =>
           rw [hr2] at h3
           obtain ⟨v2, m2⟩ := r2
@@ -584,14 +635,14 @@ theorem solveFromClauses_cons (cfg : Cfg) (rec : SubSolver) (ground : Bool) (alt
     obtain ⟨v, m'⟩ := r
     cases v <;> cases cur <;> simp [stepCur]
 
-theorem solveFromClauses_spec (hrec : RecSpec sem rank rec) (ground : Bool) :
+theorem solveFromClauses_spec (hrec : RecSpec sem rank cfg D rec) (ground : Bool) :
     ∀ (alts : List (List Nat)) (cur : Option V) (m : Min) (s : St), Inv sem s →
       (∀ alt, alt ∈ alts → ∀ c, c ∈ alt → ∀ n, n ∈ s.graph → rank c < rank n.goal) →
       (solveFromClauses cfg rec ground alts cur m s).sat
         (fun r s' => Post sem s s' ∧ r.2 = m ∧
           ∃ rs', ApproxL s'.interrupted rs' (alts.map (fun alt => altVal (alt.map sem))) ∧
             r.1 = clauseVal ground rs' cur)
-        (CacheSound sem)
+        (PanicOK sem cfg (∀ alt, alt ∈ alts → ∀ c, c ∈ alt → Fits rank cfg D s.stack.length c))
   | [], cur, m, s, hi, _ => by
     simp only [solveFromClauses, Res.sat_ok]
     exact ⟨Post.refl hi.cache, trivial, [], trivial, rfl⟩
@@ -599,7 +650,10 @@ theorem solveFromClauses_spec (hrec : RecSpec sem rank rec) (ground : Bool) :
     have h1 := fulfillSolve_spec (cfg := cfg) hrec alt m s hi (hrk alt (List.mem_cons_self ..))
     rw [solveFromClauses_cons]
     cases hr : fulfillSolve cfg rec alt m s with
-    | panic site s' => rw [hr] at h1; simpa using h1
+    | panic site s' =>
+      rw [hr] at h1
+      simp only [Res.sat_panic] at h1 ⊢
+      exact h1.mono (fun hf => hf alt (List.mem_cons_self ..))
     | ok r s1 =>
       rw [hr] at h1
       obtain ⟨v, m'⟩ := r
@@ -617,7 +671,10 @@ theorem solveFromClauses_spec (hrec : RecSpec sem rank rec) (ground : Bool) :
         simp only []
         rw [hsc] at ih
         cases hr2 : solveFromClauses cfg rec ground rest none m' s1 with
-        | panic site s' => rw [hr2] at ih; simpa using ih
+        | panic site s' =>
+          rw [hr2] at ih
+          simp only [Res.sat_panic] at ih ⊢
+          exact ih.mono (fun hf a ha => by rw [hp.stack]; exact hf a (List.mem_cons_of_mem _ ha))
         | ok r2 s2 =>
           rw [hr2] at ih
           obtain ⟨v2, m2⟩ := r2
@@ -636,7 +693,10 @@ theorem solveFromClauses_spec (hrec : RecSpec sem rank rec) (ground : Bool) :
         · simp only [ht]
           rw [hsc] at ih
           cases hr2 : solveFromClauses cfg rec ground rest (some c) m' s1 with
-          | panic site s' => rw [hr2] at ih; simpa using ih
+          | panic site s' =>
+          rw [hr2] at ih
+          simp only [Res.sat_panic] at ih ⊢
+          exact ih.mono (fun hf a ha => by rw [hp.stack]; exact hf a (List.mem_cons_of_mem _ ha))
           | ok r2 s2 =>
             rw [hr2] at ih
             obtain ⟨v2, m2⟩ := r2
@@ -686,6 +746,18 @@ theorem tick_panic (cfg : Cfg) (s s0 : St) (site : Site) (h : tick cfg s = .pani
   rw [h] at this
   exact this
 
+theorem tick_panic_budget (cfg : Cfg) (s s0 : St) (site : Site) (h : tick cfg s = .panic site s0) :
+    site = .budget ∧ cfg.budget ≠ none := by
+  unfold tick at h
+  cases hb : cfg.budget with
+  | none => rw [hb] at h; cases h
+  | some b =>
+    rw [hb] at h
+    simp only at h
+    split at h
+    · cases h; exact ⟨rfl, by simp⟩
+    · cases h
+
 theorem cacheGet_insert (c : List (Nat × V)) (g : Nat) (v : V) (k : Nat) :
     cacheGet (cacheInsert c g v) k = if g = k then some v else cacheGet c k := by
   unfold cacheInsert
@@ -708,14 +780,18 @@ theorem cacheGet_insert (c : List (Nat × V)) (g : Nat) (v : V) (k : Nat) :
         · simp only [h'', if_false]; exact ih
 
 section Main
-variable {inst : Instance} {cfg : Cfg} {sem : Nat → V} {rank : Nat → Nat}
+variable {inst : Instance} {cfg : Cfg} {sem : Nat → V} {rank : Nat → Nat} {D : Nat}
+
+/-- every sub-goal of `g` fits at depth `L` -/
+def SubFits (inst : Instance) (rank : Nat → Nat) (cfg : Cfg) (D L g : Nat) : Prop :=
+  ∀ alt, alt ∈ inst.deps g → ∀ c, c ∈ alt → Fits rank cfg D L c
 
 theorem solveIteration_spec {rec : SubSolver} (hfix : cfg.fixF3 = true) (hsem : IsSem inst sem)
-    (hrank : Ranked inst rank) (hrec : RecSpec sem rank rec) (g : Nat) (m : Min) (s : St)
+    (hrank : Ranked inst rank) (hrec : RecSpec sem rank cfg D rec) (g : Nat) (m : Min) (s : St)
     (hi : Inv sem s) (hrk : ∀ n, n ∈ s.graph → rank g ≤ rank n.goal) :
     (solveIteration inst cfg rec g m s).sat
       (fun r s' => Post sem s s' ∧ r.2 = m ∧ Approx s'.interrupted r.1 (sem g))
-      (CacheSound sem) := by
+      (PanicOK sem cfg (SubFits inst rank cfg D s.stack.length g)) := by
   unfold solveIteration
   have hsc : (shouldContinue s).2.stack = s.stack ∧ (shouldContinue s).2.graph = s.graph ∧
       (shouldContinue s).2.cache = s.cache ∧ (shouldContinue s).2.interrupted = s.interrupted ∧
@@ -746,7 +822,10 @@ theorem solveIteration_spec {rec : SubSolver} (hfix : cfg.fixF3 = true) (hsem : 
         exact Nat.lt_of_lt_of_le (hrank g alt ha c hc) (hrk n hn)
       have h1 := solveFromClauses_spec (cfg := cfg) hrec (inst.ground g) (inst.deps g) none m s1 hi1 hrk1
       cases hr : solveFromClauses cfg rec (inst.ground g) (inst.deps g) none m s1 with
-      | panic site s' => rw [hr] at h1; simpa using h1
+      | panic site s' =>
+        rw [hr] at h1
+        simp only [Res.sat_panic] at h1 ⊢
+        exact h1.mono (fun hf alt ha c hc => by rw [e1]; exact hf alt ha c hc)
       | ok r s2 =>
         rw [hr] at h1
         obtain ⟨v, m'⟩ := r
@@ -762,25 +841,27 @@ theorem solveIteration_spec {rec : SubSolver} (hfix : cfg.fixF3 = true) (hsem : 
 
 /-- the loop of `solve_new_subgoal` on a ranked instance: one round, no cycle -/
 theorem solveNewSubgoal_spec {rec : SubSolver} (hfix : cfg.fixF3 = true) (hsem : IsSem inst sem)
-    (hrank : Ranked inst rank) (hrec : RecSpec sem rank rec) (g : Nat) (r : Nat) (s : St)
+    (hrank : Ranked inst rank) (hrec : RecSpec sem rank cfg D rec) (g : Nat) (s : St)
     (S : List StackEntry) (e : StackEntry) (G : List Node) (nd : Node)
     (hs : s.stack = S ++ [e]) (hg : s.graph = G ++ [nd])
     (hi : Inv sem s) (hrk : ∀ n, n ∈ s.graph → rank g ≤ rank n.goal) :
-    (solveNewSubgoal inst cfg rec g S.length G.length r s).sat
+    (solveNewSubgoal inst cfg rec g S.length G.length cfg.rounds s).sat
       (fun sub s' => sub = none ∧ s'.stack = s.stack ∧ CacheSound sem s' ∧
         s'.cache.isSome = s.cache.isSome ∧ (s.interrupted = true → s'.interrupted = true) ∧
         QuietStep s s' ∧
         ∃ v, s'.graph = G ++ [{ nd with solution := v }] ∧ Approx s'.interrupted v (sem g))
-      (CacheSound sem) := by
-  cases r with
-  | zero => simp only [solveNewSubgoal, Res.sat_panic]; exact hi.cache
+      (PanicOK sem cfg (SubFits inst rank cfg D s.stack.length g)) := by
+  cases hr0 : cfg.rounds with
+  | zero => simp only [solveNewSubgoal, Res.sat_panic]; exact ⟨hi.cache, hr0⟩
   | succ r =>
     simp only [solveNewSubgoal]
     cases ht : tick cfg s with
     | panic site s0 =>
       simp only [Res.sat_panic]
-      rw [tick_panic cfg s s0 site ht]
-      exact hi.cache.of_eq rfl
+      obtain ⟨hsite, hbud⟩ := tick_panic_budget cfg s s0 site ht
+      subst hsite
+      rw [tick_panic cfg s s0 .budget ht]
+      exact ⟨hi.cache.of_eq rfl, hbud⟩
     | ok u s0 =>
       have e0 := tick_ok cfg s s0 ht
       have hi0 : Inv sem s0 := by rw [e0]; exact hi.of_eq rfl rfl rfl
@@ -789,7 +870,10 @@ theorem solveNewSubgoal_spec {rec : SubSolver} (hfix : cfg.fixF3 = true) (hsem :
       have h1 := solveIteration_spec hfix hsem hrank hrec g none s0 hi0 hrk0
       simp only []
       cases hr : solveIteration inst cfg rec g none s0 with
-      | panic site s' => rw [hr] at h1; simpa using h1
+      | panic site s' =>
+        rw [hr] at h1
+        simp only [Res.sat_panic] at h1 ⊢
+        exact h1.mono (fun hf => by rw [e0]; exact hf)
       | ok r1 s1 =>
         rw [hr] at h1
         obtain ⟨cur, m⟩ := r1
@@ -809,10 +893,11 @@ theorem solveNewSubgoal_spec {rec : SubSolver} (hfix : cfg.fixF3 = true) (hsem :
         · simp only [updateNode_last]
 
 theorem solveGoal_spec (hfix : cfg.fixF3 = true) (hsem : IsSem inst sem) (hrank : Ranked inst rank) :
-    ∀ d, RecSpec sem rank (solveGoal inst cfg d)
+    ∀ d, RecSpec sem rank cfg d (solveGoal inst cfg d)
   | 0 => by
     intro c m s hi _
-    simp only [solveGoal, Res.sat_panic]; exact hi.cache
+    simp only [solveGoal, Res.sat_panic]
+    exact ⟨hi.cache, fun hf => Nat.not_lt_zero _ hf.1⟩
   | d + 1 => by
     intro g m s hi hrk
     have ih := solveGoal_spec hfix hsem hrank d
@@ -821,8 +906,10 @@ theorem solveGoal_spec (hfix : cfg.fixF3 = true) (hsem : IsSem inst sem) (hrank 
     · -- tick panics
       rename_i site s0 ht
       simp only [Res.sat_panic]
-      rw [tick_panic cfg s s0 site ht]
-      exact hi.cache.of_eq rfl
+      obtain ⟨hsite, hbud⟩ := tick_panic_budget cfg s s0 site ht
+      subst hsite
+      rw [tick_panic cfg s s0 .budget ht]
+      exact ⟨hi.cache.of_eq rfl, hbud⟩
     · rename_i s0 ht
       have e0 := tick_ok cfg s s0 ht
       have hi0 : Inv sem s0 := by rw [e0]; exact hi.of_eq rfl rfl rfl
@@ -855,7 +942,10 @@ theorem solveGoal_spec (hfix : cfg.fixF3 = true) (hsem : IsSem inst sem) (hrank 
           unfold push
           by_cases hov : cfg.overflowDepth ≤ s0.stack.length
           · simp only [hov, if_true, Res.sat_panic]
-            exact hi0.cache
+            refine ⟨hi0.cache, fun hf => ?_⟩
+            have : s0.stack.length = s.stack.length := by rw [e0]
+            have h2 := hf.2
+            omega
           · simp only [hov, if_false]
             -- the context while the new goal is being solved
             have hi2 : Inv sem
@@ -876,13 +966,20 @@ theorem solveGoal_spec (hfix : cfg.fixF3 = true) (hsem : IsSem inst sem) (hrank 
               cases List.mem_append.mp hn with
               | inl h => exact Nat.le_of_lt (hrk n (by rw [e0] at h; exact h))
               | inr h => rw [List.mem_singleton.mp h]; exact Nat.le_refl _
-            have h1 := solveNewSubgoal_spec hfix hsem hrank ih g cfg.rounds _ s0.stack _ s0.graph _ rfl rfl hi2 hrk2
+            have h1 := solveNewSubgoal_spec hfix hsem hrank ih g _ s0.stack _ s0.graph _ rfl rfl hi2 hrk2
             cases hr : solveNewSubgoal inst cfg (solveGoal inst cfg d) g s0.stack.length s0.graph.length cfg.rounds
                 { s0 with
                   stack := s0.stack ++ [{ coinductiveGoal := inst.coind g, cycle := false }],
                   graph := s0.graph ++ [{ goal := g, solution := initialValue (inst.coind g),
                                           stackDepth := some s0.stack.length, links := some s0.graph.length }] } with
-            | panic site s' => rw [hr] at h1; simpa using h1
+            | panic site s' =>
+              rw [hr] at h1
+              simp only [Res.sat_panic] at h1 ⊢
+              refine h1.mono (fun hf alt ha c hc => ?_)
+              have hlt := hrank g alt ha c hc
+              have hl : s0.stack.length = s.stack.length := by rw [e0]
+              simp only [List.length_append, List.length_singleton, hl]
+              exact ⟨by have := hf.1; omega, by have := hf.2; omega⟩
             | ok sub s3 =>
               rw [hr] at h1
               simp only [Res.sat_ok] at h1
@@ -943,7 +1040,7 @@ theorem solveRootGoal_spec (h3 : cfg.fixF3 = true) (h7 : cfg.fixF7 = true) (hsem
       (fun v s' => s'.stack = [] ∧ s'.graph = [] ∧ CacheSound sem s' ∧
         s'.cache.isSome = s.cache.isSome ∧ Approx s'.interrupted v (sem g) ∧
         (Quiet s → s'.interrupted = false))
-      (CacheSound sem) := by
+      (PanicOK sem cfg (rank g < cfg.overflowDepth)) := by
   unfold solveRootGoal
   simp only [h7, h3, Bool.not_true, Bool.false_and, Bool.false_eq_true, if_false, if_true]
   have hi : Inv sem { s with stack := [], graph := [], interrupted := false } :=
@@ -951,7 +1048,10 @@ theorem solveRootGoal_spec (h3 : cfg.fixF3 = true) (h7 : cfg.fixF7 = true) (hsem
   have h1 := solveGoal_spec h3 hsem hrank (cfg.overflowDepth + 1) g none _ hi (fun n hn => by cases hn)
   cases hr : solveGoal inst cfg (cfg.overflowDepth + 1) g none
       { s with stack := [], graph := [], interrupted := false } with
-  | panic site s' => rw [hr] at h1; simpa using h1
+  | panic site s' =>
+    rw [hr] at h1
+    simp only [Res.sat_panic] at h1 ⊢
+    exact h1.mono (fun hf => ⟨Nat.lt_succ_of_lt hf, by simpa using hf⟩)
   | ok r s' =>
     rw [hr] at h1
     obtain ⟨v, m⟩ := r
@@ -977,7 +1077,7 @@ theorem runCall_spec (h3 : cfg.fixF3 = true) (h7 : cfg.fixF7 = true) (hsem : IsS
     (runCall inst cfg c s).sat
       (fun v s' => CacheSound sem s' ∧ s'.cache.isSome = s.cache.isSome ∧
         Approx s'.interrupted v (sem c.goal) ∧ (c.Uninterrupted → v = sem c.goal))
-      (CacheSound sem) := by
+      (PanicOK sem { cfg with budget := c.budget } (rank c.goal < cfg.overflowDepth)) := by
   unfold runCall
   have h1 := solveRootGoal_spec (cfg := { cfg with budget := c.budget }) (inst := inst) (rank := rank)
     h3 h7 hsem hrank c.goal { s with oracle := c.oracle, oracleDefault := c.dflt, work := 0 } (hc.of_eq rfl)
@@ -1003,7 +1103,7 @@ theorem runHistory_sound (h3 : cfg.fixF3 = true) (h7 : cfg.fixF7 = true) (hsem :
     apply runHistory_sound h3 h7 hsem hrank cs
     have h1 := runCall_spec h3 h7 hsem hrank c s hc
     cases hr : runCall inst cfg c s with
-    | panic site s' => rw [hr] at h1; simpa [Res.state] using h1
+    | panic site s' => rw [hr] at h1; simp only [Res.sat_panic] at h1; simpa [Res.state] using h1.1
     | ok v s' => rw [hr] at h1; simp only [Res.sat_ok] at h1; simpa [Res.state] using h1.1
 
 theorem fresh_sound (sem : Nat → V) (caching : Bool) : CacheSound sem (St.fresh caching) := by
@@ -1033,6 +1133,26 @@ theorem history_answer (h3 : cfg.fixF3 = true) (h7 : cfg.fixF7 = true) (hsem : I
     cases h1.2.2.1 with
     | inl e => exact Or.inl e
     | inr e => exact Or.inr e.2
+
+/-- TOTALITY on ranked instances: a call without work budget on a solver with any history
+    returns a value — no assert of the framework fires, the loop of `solve_new_subgoal` runs one
+    round per goal — provided the goal's rank fits under the overflow depth (and at least one
+    round of loop fuel, and the F16 repair: the legacy `unwrap` can still fire under a
+    non-monotone callback) -/
+theorem history_call_returns (h3 : cfg.fixF3 = true) (h7 : cfg.fixF7 = true) (h16 : cfg.fixF16 = true)
+    (hr : 1 ≤ cfg.rounds) (hsem : IsSem inst sem) (hrank : Ranked inst rank) (h : List Call)
+    (caching : Bool) (c : Call) (hb : c.budget = none) (hfit : rank c.goal < cfg.overflowDepth) :
+    ∃ v, (runCall inst cfg c (runHistory inst cfg h (St.fresh caching))).outcome = .value v := by
+  have hs := runHistory_sound h3 h7 hsem hrank h (St.fresh caching) (fresh_sound sem caching)
+  have h1 := runCall_spec h3 h7 hsem hrank c _ hs
+  cases hr' : runCall inst cfg c (runHistory inst cfg h (St.fresh caching)) with
+  | ok v s' => exact ⟨v, rfl⟩
+  | panic site s' =>
+    rw [hr'] at h1
+    simp only [Res.sat_panic] at h1
+    have h2 := h1.2
+    exfalso
+    cases site <;> simp_all
 
 end History
 
